@@ -6,3 +6,7 @@
         (* 2 (ite (or (= (mod (div a 2) 2) 1) (= (mod (div b 2) 2) 1)) 1 0))
         (* 4 (ite (or (= (div a 4) 1) (= (div b 4) 1)) 1 0)))))
   :pattern ((bitor a b)))))
+; pwidth(r): the common length of all rows (rel.Values) held by the *positionalRelation r (abstract: the rows
+; live in a frozen.Set); ewidth(e): the same for the rows a *positionalRelationValuesEnumerator yields.
+(declare-fun pwidth (Int) Int)
+(declare-fun ewidth (Int) Int)
